@@ -13,7 +13,51 @@ def showFound : Found → String
 
 /- (an iterator equal to `end()` — index = number of options, possible only through the entry a refused add left behind — is what the
     harness prints as "-" for `tryFind`) -/
-/-- `oi <o:hexname:alias | a:hexalias:opt | q:hexkey:type>*` -/
+/- `oi <o:hexname:alias | a:hexalias:opt | q:hexkey:type | O:hexname:alias | A:hexalias:opt | m:-:0>*` -/
+/-- the second context (`O:`/`A:` tokens): its own index (for refusals inside it) and its options (name, alias, group) in order of addition -/
+structure Other where
+  ctx  : Ctx := {}
+  opts : List (List Nat × Nat × Nat) := []
+
+def oiLoop2 : Ctx → Other → List String → List String → List String
+  | _, _, [], acc => acc.reverse
+  | c, o, t :: ts, acc =>
+    match t.splitOn ":" with
+    | ["O", n, a] =>
+      match unhex n, a.toNat? with
+      | some n, some a => match o.ctx.addOption n a with
+        | some c' => oiLoop2 c { ctx := c', opts := o.opts ++ [(n, a, o.opts.length % 2)] } ts ("ok" :: acc)
+        | none => oiLoop2 c { o with ctx := o.ctx.afterRefused a } ts ("DUP" :: acc)
+      | _, _ => ("bad-op" :: acc).reverse
+    | ["A", n, k] =>
+      match unhex n, k.toNat? with
+      | some n, some k => match o.ctx.addAlias n k with
+        | some c' => oiLoop2 c { o with ctx := c' } ts ("ok" :: acc)
+        | none => oiLoop2 c o ts ("DUP" :: acc)
+      | _, _ => ("bad-op" :: acc).reverse
+    | ["m", _, _] =>
+      let r := c.addCtx o.opts
+      oiLoop2 r.1 o ts ((if r.2 then "ok" else "DUP") :: acc)
+    | ["o", n, a] =>
+      match unhex n, a.toNat? with
+      | some n, some a => match c.addOption n a with
+        | some c' => oiLoop2 c' o ts ("ok" :: acc)
+        | none => oiLoop2 (c.afterRefused a) o ts ("DUP" :: acc)
+      | _, _ => ("bad-op" :: acc).reverse
+    | ["a", n, k] =>
+      match unhex n, k.toNat? with
+      | some n, some k => match c.addAlias n k with
+        | some c' => oiLoop2 c' o ts ("ok" :: acc)
+        | none => oiLoop2 c o ts ("DUP" :: acc)
+      | _, _ => ("bad-op" :: acc).reverse
+    | ["q", k, ty] =>
+      match unhex k, ftOf ty with
+      | some k, some ty =>
+        let r := s!"{showFound (find c.index k ty)}/{match tryFind c.index k ty with | some o => (if o == c.nOpts then "-" else s!"={o}") | none => "-"}"
+        oiLoop2 c o ts (r :: acc)
+      | _, _ => ("bad-op" :: acc).reverse
+    | _ => ("bad-op" :: acc).reverse
+
 def oiLoop : Ctx → List String → List String → List String
   | _, [], acc => acc.reverse
   | c, t :: ts, acc =>
@@ -38,6 +82,6 @@ def oiLoop : Ctx → List String → List String → List String
       | _, _ => ("bad-op" :: acc).reverse
     | _ => ("bad-op" :: acc).reverse
 
-def runOI (args : List String) : String := joinSp (oiLoop {} args [])
+def runOI (args : List String) : String := joinSp (oiLoop2 {} {} args [])
 
 end PotasscoVerif.Drv
